@@ -11,7 +11,7 @@ from decimal import Decimal
 
 XSI = "http://www.w3.org/2001/XMLSchema-instance"
 NAMESPACES = [None, "urn:a", "urn:b"]
-KINDS = ["int", "bool", "float", "decimal", "date", "time", "dateTime", "duration", "period", "string"]
+KINDS = ["int", "bool", "float", "decimal", "date", "time", "dateTime", "duration", "period", "string", "string", "empty"]
 
 
 # --------------------------------------------------------------------------- values
@@ -55,6 +55,8 @@ def canonical_value(rng: random.Random, kind: str, style: int = 0) -> str:
         return rng.choice(["P1Y", "P1Y2M3DT4H5M6S", "PT30M", "-P2D", "P3M", "PT0.5S", "P1DT12H"])
     if kind == "period":
         return rng.choice(["2020-05", "1999-12", "--05-12", "--11", "---07", "2020-05Z", "--02-29"])
+    if kind == "empty":  # a marker element / attribute that never carries a value (inferred as anySimpleType)
+        return ""
     if kind == "string":
         if style == 0:
             return rng.choice(["alpha", "beta", "gamma delta", "w" + str(rng.randint(0, 999)), "x-y_z", "Zeta"])
